@@ -23,7 +23,7 @@ THEOREMS = {
             "Lemmas.Rev.peel_of_ranked", "Lemmas.Rev.peel_keeps_cycle", "Lemmas.Rev.ranked_of_peel",
             "Lemmas.Rev.detect_ok_of_ranked", "Lemmas.Rev.mem_closureOf_iff"],
     "C16": ["C16.full_id", "C16.plain_sound", "C16.prefix_unique_partial", "C16.prefix_unique_counterexample",
-            "C16.symbolic_heads", "C16.symbolic_base", "C16.walk_up_exact", "C16.walk_down_exact", "C16.walkStep_up", "C16.walkStep_down", "Lemmas.Rev.revisionForIdent_sound"],
+            "C16.symbolic_heads", "C16.symbolic_base", "C16.walk_up_exact", "C16.walk_down_exact", "C16.walk_up_history", "C16.walk_down_history", "C16.stepsDown_iff", "C16.load_ids_legal", "C16.walkStep_up", "C16.walkStep_down", "Lemmas.Rev.revisionForIdent_sound"],
 }
 PARTIAL = {
     "C05": {
